@@ -61,6 +61,7 @@ type gen2 struct {
 	counter map[int]bool // loop counter locals: never assigned by generated statements
 	tab0    []int        // initial content of table 0: function index or -1
 	size    int          // rough instruction budget
+	tail    bool         // tail-call proposal: functions may end in return_call / return_call_indirect; longer, integer-heavy signatures
 }
 
 // SIMD operators whose results are fully determined by the specification for every bit pattern of the operands
@@ -821,6 +822,42 @@ func (g *gen2) callStmt(d int) []byte {
 	return append(o, g.sinkParams(s.R)...)
 }
 
+// tailCall: the function ends in return_call of a later function / an import, or return_call_indirect through table 0
+// (leaf functions), whose result types are exactly the current function's; nil when tail calls are off or nothing fits.
+func (g *gen2) tailCall(d int) []byte {
+	if !g.tail || g.r.Intn(3) == 0 {
+		return nil
+	}
+	same := func(a, b []byte) bool { return string(a) == string(b) }
+	if g.r.Intn(3) == 0 && !g.fn.leaf { // indirect: any leaf signature with the same results
+		var ts []int
+		for _, fi := range g.leafFuncs() {
+			if s := g.sigOf(fi); same(s.R, g.fn.sig.R) {
+				ts = append(ts, g.typeIdx(s))
+			}
+		}
+		if len(ts) > 0 {
+			ti := ts[g.r.Intn(len(ts))]
+			return c.Cat(g.values(g.types[ti].P, d-1), g.tidx(0), []byte{0x13}, c.U32(uint32(ti)), c.U32(0))
+		}
+	}
+	var cands []int
+	n := len(g.imps) + len(g.funcs)
+	for i := 0; i < n; i++ {
+		if i >= len(g.imps) && (i-len(g.imps) <= g.cur || g.fn.leaf) {
+			continue
+		}
+		if same(g.sigOf(i).R, g.fn.sig.R) {
+			cands = append(cands, i)
+		}
+	}
+	if len(cands) == 0 {
+		return nil
+	}
+	f := cands[g.r.Intn(len(cands))]
+	return c.Cat(g.values(g.sigOf(f).P, d-1), []byte{0x12}, c.U32(uint32(f)))
+}
+
 // constInit: a constant expression of type t for globals (may read an imported immutable global of that type)
 func (g *gen2) constInit(t byte, nImpGlobals int) []byte {
 	if g.r.Intn(3) == 0 {
@@ -837,7 +874,21 @@ func (g *gen2) constInit(t byte, nImpGlobals int) []byte {
 // genModule2 builds one module.
 func genModule2(r *c.Rng) []byte {
 	g := &gen2{r: r, tmap: map[string]int{}}
-	sig := func(maxP, maxR int) sig2 { return sig2{g.typeList(maxP), g.typeList(maxR)} }
+	g.tail = r.Intn(4) == 0
+	sig := func(maxP, maxR int) sig2 {
+		if g.tail && r.Bool() { // up to 10 parameters, mostly of the types passed in integer registers
+			var ps []byte
+			for n := int(r.Pick([]uint64{0, 1, 2, 3, 4, 5, 6, 7, 7, 7, 7, 8, 8, 9, 10})); n > 0; n-- {
+				if r.Intn(6) == 0 {
+					ps = append(ps, g.anyType())
+				} else {
+					ps = append(ps, g.pick([]byte{c.I32, c.I64, c.I64, c.ExternRef}))
+				}
+			}
+			return sig2{ps, g.typeList(maxR)}
+		}
+		return sig2{g.typeList(maxP), g.typeList(maxR)}
+	}
 	for i := r.Intn(3); i > 0; i-- {
 		g.imps = append(g.imps, sig(3, 2))
 	}
@@ -890,7 +941,30 @@ func genModule2(r *c.Rng) []byte {
 		g.size = 0
 		d := 2 + r.Intn(2)
 		body := g.stmts(d, 2+r.Intn(4))
-		body = append(body, g.values(f.sig.R, d)...)
+		if tc := g.tailCall(d); tc != nil {
+			body = append(body, tc...)
+		} else {
+			body = append(body, g.values(f.sig.R, d)...)
+			if nr := len(f.sig.R); g.tail && nr > 0 && (f.sig.R[nr-1] == c.I32 || f.sig.R[nr-1] == c.I64) {
+				// the last result depends on every integer parameter (so a parameter damaged on the way in is seen)
+				for pi, pt := range f.sig.P {
+					if pt != c.I32 && pt != c.I64 {
+						continue
+					}
+					body = append(body, c.LocalGet(uint32(pi))...)
+					switch {
+					case pt == c.I64 && f.sig.R[nr-1] == c.I32:
+						body = append(body, 0xa7, 0x73) // wrap, i32.xor
+					case pt == c.I32 && f.sig.R[nr-1] == c.I64:
+						body = append(body, 0xad, 0x85) // extend_u, i64.xor
+					case pt == c.I32:
+						body = append(body, 0x73)
+					default:
+						body = append(body, 0x85)
+					}
+				}
+			}
+		}
 		g.pop()
 		f.body = body
 	}
